@@ -42,20 +42,20 @@ package raft
 
 // the order sort.Sort establishes is the one these three methods define: the trusted contract of sort.Sort above
 // (decreasing, a permutation) holds for an implementation of sort.Interface that meets these contracts
-//@ func (decrUint64Slice).Less
+//@ func (decrUint64Slice).Less params(s, i, j)
 //@   props C02 C06 C09 C11 C19
 //@   requires 0 <= i && i < len(s) && 0 <= j && j < len(s)
 //@   ensures [C02+C09.decreasing-order] result0 == (s[i] > s[j])
-//@ func (decrUint64Slice).Len
+//@ func (decrUint64Slice).Len params(s)
 //@   props C02 C06 C09 C11 C19
 //@   ensures result0 == len(s)
-//@ func (decrUint64Slice).Swap
+//@ func (decrUint64Slice).Swap params(s, i, j)
 //@   props C02 C06 C09 C11 C19
 //@   requires 0 <= i && i < len(s) && 0 <= j && j < len(s)
 //@   modifies contents(s)
 //@   ensures s[i] == old(s[j]) && s[j] == old(s[i]) && forall(k, 0 <= k && k < len(s) && k != i && k != j ==> s[k] == old(s[k]))
 
-//@ func (*leader).majorityMatchIndex
+//@ func (*leader).majorityMatchIndex params(l)
 //@   requires l.Raft != nil && l.storage != nil && MajorityPre(l)
 //@   modifies sortgen
 //@   props C06 C11
